@@ -11,7 +11,7 @@ from astlib import to_text, vars_of
 from cases import dt_obj
 
 
-def simulate(name, formulas, vars_, vals=(-2, 1, 3), gaps=(1,), num=300, depth=8, seed=0, workers=8, timeout=600):
+def simulate(name, formulas, vars_, vals=(-2, 1, 3), gaps=(1,), num=300, depth=8, seed=0, workers=8, timeout=600, mode="online"):
     mod = "MC_" + name
     cfgrec = {"S": 1, "M": {"sem": "standard", "io": {v: "output" for v in vars_}}, "vars": set(vars_), "period": 1, "tol": 0}
     text = """---- MODULE %s ----
@@ -27,6 +27,8 @@ RNext == \\/ \\E f \\in Formulas : Parse(1, f) /\\ log' = Append(log, [a |-> "pa
          \\/ \\E s \\in [ms[1].cfg.vars -> Vals], g \\in Gaps :
                Update(1, s, g) /\\ log' = Append(log, [a |-> "update", s |-> s, t |-> NextStamp(ms[1], g)])
          \\/ Reset(1) /\\ log' = Append(log, [a |-> "reset"])
+         \\/ \\E s \\in [ms[1].cfg.vars -> Vals], g \\in Gaps :
+               Extend(1, s, g) /\\ log' = Append(log, [a |-> "extend", s |-> s, t |-> NextStamp(ms[1], g)])
 RSpec == RInit /\\ [][RNext]_<<ms, log>>
 \\* always true; prints the behaviour when it has reached the requested depth
 Emit == (Len(log) = %d) => PrintT("BEHAVIOUR " \\o ToJson(log))
@@ -40,13 +42,16 @@ Emit == (Len(log) = %d) => PrintT("BEHAVIOUR " \\o ToJson(log))
  Gaps <- GapsDef
  MaxLen = %d
  Dev = {}
- Mode = "online"
+ Mode = "%s"
 SPECIFICATION RSpec
 INVARIANT Emit
+INVARIANT InvC01
 INVARIANT InvC02
 INVARIANT InvC03
 INVARIANT InvC10
-""" % depth
+INVARIANT InvC13
+PROPERTY ActC16
+""" % (depth, mode)
     wd = tlc.workdir(name)
     with open(os.path.join(wd, mod + ".tla"), "w") as f:
         f.write(text)
@@ -85,7 +90,7 @@ def to_cases(behs, vars_, factories=("StlDiscreteTimeSpecification", "StlDiscret
         seen.add(key)
         phi = b[0]["phi"]
         obj = dt_obj(phi, 1, list(vars_), factory=factories[i % len(factories)])
-        evs = []
+        evs, w, ts = [], {}, []
         for e in b:
             if e["a"] == "parse":
                 evs.append({"o": 1, "a": "parse"})
@@ -93,7 +98,15 @@ def to_cases(behs, vars_, factories=("StlDiscreteTimeSpecification", "StlDiscret
                 evs.append({"o": 1, "a": "pastify"})
             elif e["a"] == "reset":
                 evs.append({"o": 1, "a": "reset"})
+            elif e["a"] == "extend":
+                # evaluate() on the trace extended by one sample, on the same object
+                for v in vars_:
+                    w.setdefault(v, []).append(e["s"][v])
+                ts.append(e["t"])
+                evs.append({"o": 1, "a": "evaluate", "ts": list(ts), "w": {v: list(w[v]) for v in vars_}})
             else:
                 evs.append({"o": 1, "a": "update", "t": e["t"], "s": e["s"]})
+        if any(e["a"] == "extend" for e in b):
+            obj["factory"] = ("StlDiscreteTimeSpecification", "StlDiscreteTimeOfflineSpecification")[i % 2]
         cases.append({"objs": [obj], "events": evs, "rels": [], "skip": [], "from": "tlc-simulation"})
     return cases
